@@ -96,7 +96,76 @@ func (eng *Engine) lookupSpec(fn *ssa.Function) *FuncSpec {
 
 // ---------------------------------------------------------------- calls
 
+// call executes a call instruction; the caller's `at call` clauses (ghost updates / assertions before and
+// after the call) apply whatever way the callee is modelled (contract, inlined body, opaque).
 func (vc *VC) call(fr *Frame, instr ssa.Instruction, c *ssa.CallCommon, st *State) Val {
+	var sites []*CallSiteSpec
+	name := ""
+	ord := 0
+	if fr.spec != nil && len(fr.spec.Calls) > 0 {
+		name = vc.calleeName(fr, c)
+		if name != "" {
+			ord = vc.callOrdinal(fr, instr, name)
+			for _, cs := range fr.spec.Calls {
+				if cs.Callee == name && (cs.Ordinal == -1 || cs.Ordinal == ord) {
+					sites = append(sites, cs)
+				}
+			}
+		}
+	}
+	if len(sites) == 0 {
+		return vc.callInner(fr, instr, c, st)
+	}
+	var args []Val
+	if c.IsInvoke() {
+		args = append(args, vc.operand(fr, c.Value))
+	}
+	for _, a := range c.Args {
+		args = append(args, vc.operand(fr, a))
+	}
+	callerEnv := func(cur *State, extra map[string]Val) *SpecEnv {
+		env := vc.specEnvCur(fr, cur, fr.oldStOrSelf(cur), extra)
+		for i := range args {
+			env.vars[fmt.Sprintf("arg%d", i)] = args[i]
+		}
+		if len(args) > 0 {
+			env.vars["recv"] = args[0]
+		}
+		return env
+	}
+	for _, cs := range sites {
+		for _, g := range cs.GhostB {
+			vc.ghostAssign(callerEnv(st, nil), st, g)
+		}
+		for _, a := range cs.AssertsB {
+			f := vc.trBool(callerEnv(st, nil), a.E)
+			o := vc.oblige(st, fmt.Sprintf("%s#at.%s#%d.before.%d", vc.fnNameOf(fr), name, ord, a.Idx), "assert", f, a.Src, instr.Pos())
+			o.Tag = a.Tag
+		}
+	}
+	res := vc.callInner(fr, instr, c, st)
+	results := map[string]Val{}
+	if len(res.Tuple) > 0 {
+		for i, r := range res.Tuple {
+			results[fmt.Sprintf("res%d", i)] = r
+		}
+	} else if res.T != "" || res.Sl != nil {
+		results["res0"] = res
+	}
+	for _, cs := range sites {
+		for _, g := range cs.Ghost {
+			vc.ghostAssign(callerEnv(st, results), st, g)
+		}
+		for _, a := range cs.Asserts {
+			f := vc.trBool(callerEnv(st, results), a.E)
+			o := vc.oblige(st, fmt.Sprintf("%s#at.%s#%d.assert.%d", vc.fnNameOf(fr), name, ord, a.Idx), "assert", f, a.Src, instr.Pos())
+			o.Tag = a.Tag
+		}
+	}
+	return res
+}
+
+func (vc *VC) callInner(fr *Frame, instr ssa.Instruction, c *ssa.CallCommon, st *State) Val {
 	resT := c.Signature().Results()
 	var resType types.Type = resT
 	if resT.Len() == 1 {
@@ -280,6 +349,9 @@ func (vc *VC) shouldInline(fr *Frame, fn *ssa.Function, spec *FuncSpec) bool {
 	if vc.depth >= 4 {
 		return false
 	}
+	if !inSubset(fn) {
+		return false // e.g. channel operations: treated as an opaque call instead
+	}
 	if fn.Parent() != nil { // anonymous function literal: inline
 		return countInstrs(fn) <= 400
 	}
@@ -417,6 +489,16 @@ func (vc *VC) calleeName(fr *Frame, c *ssa.CallCommon) string {
 		if g, ok := u.X.(*ssa.Global); ok {
 			return g.Pkg.Pkg.Name() + "." + g.Name()
 		}
+		if fa, ok := u.X.(*ssa.FieldAddr); ok {
+			if k := fieldFnKey(fa.X.Type(), fa.Field); k != "" {
+				return k[strings.Index(k, "::")+2:]
+			}
+		}
+	}
+	if f, ok := c.Value.(*ssa.Field); ok {
+		if k := fieldFnKey(f.X.Type(), f.Field); k != "" {
+			return k[strings.Index(k, "::")+2:]
+		}
 	}
 	return ""
 }
@@ -447,35 +529,6 @@ func (vc *VC) applyContract(fr *Frame, instr ssa.Instruction, spec *FuncSpec, na
 			env.vars[k] = v
 		}
 		return env
-	}
-	// call-site specs of the caller (before)
-	var sites []*CallSiteSpec
-	if fr.spec != nil {
-		for _, cs := range fr.spec.Calls {
-			if cs.Callee == name && (cs.Ordinal == -1 || cs.Ordinal == ord) {
-				sites = append(sites, cs)
-			}
-		}
-	}
-	callerEnv := func(cur *State, extra map[string]Val) *SpecEnv {
-		env := vc.specEnvCur(fr, cur, fr.oldStOrSelf(cur), extra)
-		for i := range args {
-			env.vars[fmt.Sprintf("arg%d", i)] = args[i]
-		}
-		if len(args) > 0 {
-			env.vars["recv"] = args[0]
-		}
-		return env
-	}
-	for _, cs := range sites {
-		for _, g := range cs.GhostB {
-			vc.ghostAssign(callerEnv(st, nil), st, g)
-		}
-		for _, a := range cs.AssertsB {
-			f := vc.trBool(callerEnv(st, nil), a.E)
-			o := vc.oblige(st, fmt.Sprintf("%s#at.%s#%d.before.%d", vc.fnNameOf(fr), name, ord, a.Idx), "assert", f, a.Src, instr.Pos())
-			o.Tag = a.Tag
-		}
 	}
 	// preconditions
 	for _, c := range spec.Requires {
@@ -541,17 +594,6 @@ func (vc *VC) applyContract(fr *Frame, instr ssa.Instruction, spec *FuncSpec, na
 	for _, c := range spec.Ensures {
 		f := vc.trBool(mkEnv(st, pre, results), c.E)
 		vc.assume(st, f)
-	}
-	for _, cs := range sites {
-		for _, g := range cs.Ghost {
-			vc.ghostAssign(callerEnv(st, results), st, g)
-		}
-		for _, a := range cs.Asserts {
-			env := callerEnv(st, results)
-			f := vc.trBool(env, a.E)
-			o := vc.oblige(st, fmt.Sprintf("%s#at.%s#%d.assert.%d", vc.fnNameOf(fr), name, ord, a.Idx), "assert", f, a.Src, instr.Pos())
-			o.Tag = a.Tag
-		}
 	}
 	return res
 }
@@ -781,10 +823,18 @@ func (vc *VC) havocAll(st *State) {
 		}
 	}
 	sort.Strings(cs)
+	before := map[string]string{}
 	for _, c := range cs {
+		before[c] = vc.get(st, c)
 		vc.havoc(st, c)
 	}
-	vc.note("a call through an unknown function value havocs every heap component known so far")
+	// cells of the current function's own local variables (address-taken locals, e.g. captured by closures) survive
+	for _, lc := range vc.localCells {
+		if old, ok := before[lc[0]]; ok {
+			vc.set(st, lc[0], fmt.Sprintf("(store %s %s (select %s %s))", vc.get(st, lc[0]), lc[1], old, lc[1]))
+		}
+	}
+	vc.note("a call through an unknown function value havocs every heap component known so far, except the calling function's own local variables")
 }
 
 // ---------------------------------------------------------------- modsets (flow-insensitive)
@@ -826,6 +876,8 @@ func (vc *VC) havocModset(st *State, ms *ModSet) {
 }
 
 func (eng *Engine) modsetOf(fn *ssa.Function) *ModSet {
+	eng.mu.Lock()
+	defer eng.mu.Unlock()
 	if ms, ok := eng.modsets[fn]; ok {
 		return ms
 	}
@@ -1902,4 +1954,24 @@ func offZeroClause(e Expr) (int, bool) {
 		}
 	}
 	return 0, false
+}
+
+// inSubset reports whether a function body only uses instructions the executor models (used to decide
+// between inlining a helper and treating it as an opaque call).
+func inSubset(fn *ssa.Function) bool {
+	for _, b := range fn.Blocks {
+		for _, in := range b.Instrs {
+			switch x := in.(type) {
+			case *ssa.Go, *ssa.Select, *ssa.Send, *ssa.MakeChan, *ssa.Range, *ssa.Next, *ssa.SliceToArrayPointer, *ssa.MultiConvert:
+				return false
+			case *ssa.UnOp:
+				if x.Op == token.ARROW {
+					return false
+				}
+			case *ssa.Defer:
+				return false
+			}
+		}
+	}
+	return true
 }
